@@ -550,10 +550,19 @@ pub fn buffered(spec: &crate::Spec) -> Report {
                 Err(e) if down => {
                     // the refused datagram cannot be observed; it is taken to be what a conforming
                     // writer would have attempted (the pending lines, or the oversize metric alone)
-                    let bytes = match &call {
+                    let mut bytes = match &call {
                         Call::Emit(m) if m.len + 1 > cap => m.bytes(),
                         _ => model.concat(&model.pending),
                     };
+                    // an oversize emit while lines are buffered: a conforming sink may also have tried
+                    // to send those lines first (and failed there); the dropped-byte figure tells which
+                    if which != "spy" && matches!(&call, Call::Emit(m) if m.len + 1 > cap) && !model.pending.is_empty() {
+                        let delta = bs.sink().stats().bytes_dropped.saturating_sub(tally.bytes_dropped);
+                        let held = model.concat(&model.pending);
+                        if delta == held.len() as u64 && delta != bytes.len() as u64 {
+                            bytes = held;
+                        }
+                    }
                     tally.packets_dropped += 1;
                     tally.bytes_dropped += bytes.len() as u64;
                     attempts.push(Attempt { bytes, ok: false, fail_id: Some(1) });
@@ -687,8 +696,12 @@ pub fn stats_faults(spec: &crate::Spec) -> Report {
             "unix" => Box::new(UnixMetricSink::from(&path, UnixDatagram::unbound().unwrap())),
             _ => Box::new(BufferedUnixMetricSink::with_capacity(&path, UnixDatagram::unbound().unwrap(), cap)),
         };
-        let mut tally = Tally::default();
-        let mut pending: u64 = 0; // bytes the buffered sink holds (by our own bookkeeping)
+        // The sends a conforming sink may have attempted are not always unique: when an oversize metric
+        // arrives while lines are buffered, the sink may first send what it holds (the statement lets
+        // it write "during an emit whose metric does not fit") or keep it, as today's code does. The
+        // bookkeeping therefore follows every conforming possibility (tally, bytes buffered) and keeps
+        // those that agree with the results and the figures observed.
+        let mut worlds: Vec<(Tally, u64)> = vec![(Tally::default(), 0)];
         let ctx = format!("{} history {:?}", which, hist);
         let big_len = if which.starts_with("udp") { 65508 } else { 250_000 };
         let mut k = 0;
@@ -718,60 +731,97 @@ pub fn stats_faults(spec: &crate::Spec) -> Report {
                 Op::Flush => sink.flush().map(|_| 0),
                 _ => sink.emit(&"m".repeat(len)),
             };
-            // our own bookkeeping of what each step must have attempted
-            let mut attempts: Vec<(u64, bool)> = vec![]; // (size, expected to succeed)
-            if !buffered {
-                if !matches!(op, Op::Flush) {
-                    attempts.push((len as u64, server_up && len < big_len));
+            let got = sink.stats();
+            let got = Tally {
+                bytes_sent: got.bytes_sent,
+                packets_sent: got.packets_sent,
+                bytes_dropped: got.bytes_dropped,
+                packets_dropped: got.packets_dropped,
+            };
+            // successors of one world: lists of (attempted sends (size, succeeds), buffered afterwards, call fails)
+            let step = |pending: u64| -> Vec<(Vec<(u64, bool)>, u64, bool)> {
+                if !buffered {
+                    return match op {
+                        Op::Flush => vec![(vec![], 0, false)],
+                        _ => {
+                            let ok = server_up && len < big_len;
+                            vec![(vec![(len as u64, ok)], 0, !ok)]
+                        }
+                    };
                 }
-            } else {
                 match op {
                     Op::Flush => {
                         if pending > 0 {
-                            attempts.push((pending, server_up));
+                            vec![(vec![(pending, server_up)], if server_up { 0 } else { pending }, !server_up)]
+                        } else {
+                            vec![(vec![], 0, false)]
                         }
                     }
                     _ => {
                         let need = len as u64 + 1;
                         if need > cap as u64 {
-                            attempts.push((len as u64, false)); // oversize for the socket as well
-                        } else {
-                            if pending + need > cap as u64 {
-                                attempts.push((pending, server_up));
+                            // oversize for the buffer (and here for the socket as well): refused
+                            let mut v = vec![(vec![(len as u64, false)], pending, true)];
+                            if pending > 0 {
+                                if server_up {
+                                    v.push((vec![(pending, true), (len as u64, false)], 0, true));
+                                } else {
+                                    v.push((vec![(pending, false)], pending, true));
+                                }
                             }
+                            v
+                        } else if pending + need > cap as u64 {
+                            if server_up {
+                                vec![(vec![(pending, true)], need, false)]
+                            } else {
+                                vec![(vec![(pending, false)], pending, true)]
+                            }
+                        } else {
+                            vec![(vec![], pending + need, false)]
                         }
                     }
                 }
-            }
-            let mut failed = false;
-            for (size, ok) in &attempts {
-                if *ok {
-                    tally.packets_sent += 1;
-                    tally.bytes_sent += size;
-                    if buffered {
-                        pending = 0;
+            };
+            let mut next: Vec<(Tally, u64)> = vec![];
+            let mut expected: Vec<(Tally, bool)> = vec![];
+            for (t, pending) in &worlds {
+                for (attempts, pend2, fails) in step(*pending) {
+                    let mut t2 = t.clone();
+                    for (size, ok) in &attempts {
+                        if *ok {
+                            t2.packets_sent += 1;
+                            t2.bytes_sent += size;
+                        } else {
+                            t2.packets_dropped += 1;
+                            t2.bytes_dropped += size;
+                            rep.flag("send-refused");
+                        }
                     }
-                } else {
-                    tally.packets_dropped += 1;
-                    tally.bytes_dropped += size;
-                    failed = true;
-                    rep.flag("send-refused");
+                    expected.push((t2.clone(), fails));
+                    if fails == res.is_err() && t2 == got && !next.contains(&(t2.clone(), pend2)) {
+                        next.push((t2, pend2));
+                    }
                 }
-            }
-            if buffered && !failed && !matches!(op, Op::Flush) && (len as u64 + 1) <= cap as u64 {
-                pending += len as u64 + 1;
-            }
-            if failed != res.is_err() {
-                bad(&mut rep, &["C14", "C13"], "unexpected-result", format!("{}: step {:?} returned {:?} but the harness expected failure={}", ctx, op, res, failed));
             }
             if let Some(r) = rx.as_ref().or(udp_rx.as_ref()) {
                 let _ = r.drain();
             }
-            check_stats(&mut rep, &format!("{} after {:?}", ctx, op), &sink.stats(), &tally);
+            if next.is_empty() {
+                if expected.iter().all(|(_, f)| *f != res.is_err()) {
+                    bad(&mut rep, &["C14", "C13"], "unexpected-result", format!("{}: step {:?} returned {:?} but the harness expected failure={}", ctx, op, res, expected[0].1));
+                } else {
+                    bad(&mut rep, &["C14"], "stats-differ", format!("{} after {:?}: stats() reports {:?} but the sends a conforming sink can have made add up to {:?}", ctx, op, got, expected.iter().map(|e| &e.0).collect::<Vec<_>>()));
+                }
+                // resynchronise on the figures reported so that one defect is not reported over and over
+                let pend = worlds.first().map(|w| w.1).unwrap_or(0);
+                next.push((got.clone(), pend));
+            }
+            worlds = next;
             if rep.full() {
                 return rep;
             }
         }
+        let tally = worlds[0].0.clone();
         if rep.samples.is_empty() && hist.len() == depth && tally.packets_dropped > 0 {
             rep.sample(Json::obj().set("history", format!("{:?}", hist)).set("tally", format!("{:?}", tally)));
         }
